@@ -19,6 +19,8 @@
 (*                         all inputs intact, no call stuck                *)
 (*   run {a, n, segs}      the same call n times (255..65537), replies     *)
 (*                         run-length encoded                              *)
+(*   burst {a, ra, g, rs}  a stored value read with remove-after-get by    *)
+(*                         several callers at one instant, one event       *)
 (*   (a `stuck` / `crash` event has no explanation: rejected)              *)
 (* A reply is explained iff the set of compatible contract states stays    *)
 (* non-empty (TTL!Post).                                                   *)
@@ -98,6 +100,22 @@ TRun(e) ==
   /\ last' = [a |-> e.a, r |-> e.segs[Len(e.segs)].r, rr |-> e.segs[Len(e.segs)].r]
   /\ UNCHANGED <<now, size, dttl, nk, mem, rds, reg, pend>>
 
+(* burst {a, ra, g, rs}: the call a (reply ra), then the call g by Len(rs) callers at the same   *)
+(* instant; rs lists their replies, hits first.  Overlapping calls may take effect in any order, *)
+(* so the replies are explained iff they are explained in that order.                            *)
+RECURSIVE Fold(_, _, _, _)
+Fold(W, g, rs, i) == IF i > Len(rs) \/ W.cs = {} THEN W ELSE Fold(Post(W, g, rs[i]), g, rs, i + 1)
+HitsFirst(rs) == \A i, j \in 1..Len(rs) : (i < j /\ rs[j].c = "hit") => rs[i].c = "hit"
+TBurst(e) ==
+  /\ Quiet
+  /\ e.a.op \in {"set", "get", "rem"} /\ e.g.op \in {"set", "get", "rem"}
+  /\ HitsFirst(e.rs)
+  /\ LET W == Fold(Post(World, e.a, e.ra), e.g, e.rs, 1) IN
+       /\ W.cs # {}
+       /\ cset' = W.cs /\ seen' = W.sn
+  /\ last' = [a |-> e.g, r |-> e.ra, rr |-> e.ra]
+  /\ UNCHANGED <<now, size, dttl, nk, mem, rds, reg, pend>>
+
 TCall2(e) ==
   /\ InRegion(e.a)
   /\ e.rr = e.r
@@ -129,6 +147,7 @@ Consume ==
          [] e.ev = "call"  -> IF Failed(e) THEN TFail(e) ELSE TCall(e)
          [] e.ev = "end"   -> TEnd(e)
          [] e.ev = "run"   -> TRun(e)
+         [] e.ev = "burst" -> TBurst(e)
          [] e.ev = "call2" -> TCall2(e)
          [] e.ev = "inv"   -> TInv(e)
          [] e.ev = "res"   -> TRes(e)
